@@ -27,6 +27,7 @@ META = {
 NEGATIVE = [
     # cfg suffix, invariant TLC must refute, meaning
     ("_direct", "DestPrevOrNew", "mutant design: File::create(dest) and write in place"),
+    ("_placeholder", "DestPrevOrNew", "mutant design: an empty file at dest is treated as a placeholder and filled in place"),
     ("_copy", "DestPrevOrNew", "mutant design: persist replaced by copy + remove"),
     ("_ascoded", "DestPrevOrNew", "deviation: compact() skips a source file whose read fails (I/O errors until 131a1c3; non-I/O errors still)"),
     ("_dirtyflush", "DestPrevOrNew", "code deviation: compact() of a session with pending changes first flushes them in place into dest"),
